@@ -139,7 +139,9 @@ def init_graph_monotone(ctx, nbuilds):
         kw = dict(metric=metric, n_neighbors=k, random_state=rng.randrange(10 ** 4), init_graph=ig, low_memory=rng.choice([True, False]),
                   n_jobs=rng.choice([None, 2]), n_iters=rng.choice([None, 0, 1]))
         if with_dist:
-            kw["init_dist"] = true_d
+            # the caller supplies distances of the metric itself (as documented); the profile above is in the index's internal scale
+            doc = pd.named_distances[metric]
+            kw["init_dist"] = np.array([[doc(X[i], X[j]) if j >= 0 else np.inf for j in row] for i, row in enumerate(ig)], dtype=np.float32)
         try:
             with warnings.catch_warnings():
                 warnings.simplefilter("ignore")
